@@ -166,4 +166,24 @@ def handle (op : String) (args : List String) : Option String :=
 
 end Driver.C10
 
-def main : IO Unit := Driver.runDriver Driver.C10.handle
+/-- The answers are pure functions of the case lines, so the lines are answered in parallel (blocks of 48 lines, one task each, on the
+runtime's thread pool) and printed in the order of the input: the same text as `Driver.runDriver Driver.C10.handle` produces, in a
+fraction of the wall time (the list-backed model needs tens of seconds for the ~180 000 lines of a quick run on one core). -/
+partial def readLines (hin : IO.FS.Stream) (acc : Array String) : IO (Array String) := do
+  let line ← hin.getLine
+  if line.isEmpty then return acc else readLines hin (acc.push line)
+
+def main : IO Unit := do
+  let hin ← IO.getStdin
+  let hout ← IO.getStdout
+  let lines ← readLines hin #[]
+  let block := 48
+  let mut tasks : Array (Task (Array String)) := #[]
+  let mut i := 0
+  while i < lines.size do
+    let part := lines.extract i (i + block)
+    tasks := tasks.push (Task.spawn fun _ => part.map (Driver.dispatchWith Driver.C10.handle))
+    i := i + block
+  for t in tasks do
+    for s in t.get do hout.putStrLn s
+  hout.flush
